@@ -306,7 +306,7 @@ def run(ctx):
             cli["org"], cli["fid"] = "ORG", "FID"
 
     # ---- A. configured accounts
-    for i in range(ctx.budget(800)):
+    for i in range(ctx.budget(550, 16000)):
         kind = "stmt" if rng.random() < 0.6 else "stmtend"
         cli, user = base_cli(), {}
         rand_opts(cli)
@@ -351,7 +351,7 @@ def run(ctx):
         rng.shuffle(infos)
         return infos
 
-    for i in range(ctx.budget(700)):
+    for i in range(ctx.budget(450, 14000)):
         kind = "stmt" if rng.random() < 0.6 else "stmtend"
         cli, user = base_cli(all_=True), {}
         rand_opts(cli)
